@@ -1,7 +1,8 @@
 From Coq Require Import List NArith Bool.
 Import ListNotations.
 Require Import MV.C09.Model MV.C09.Spec MV.C09.Exec MV.C09.Inv MV.C09.Abs MV.C09.Safety MV.C09.Render
-               MV.C09.Conserve MV.C09.Sound MV.C09.Final.
+               MV.C09.Conserve MV.C09.Sound MV.C09.Final MV.C09.Compose MV.C09.WModel MV.C09.WSpec MV.C09.WProofs.
+Require MV.C09.XExec MV.C09.XProofs.
 Open Scope N_scope.
 Require Import MV.C09.Properties.
 
@@ -56,11 +57,51 @@ Check (C09_emitted_message_roundtrip : forall c o chunks ch,
   wf_msg (expect c o (op_values o)) = true ->
   parse_msg (render (expect c o ch)) = Some (expect c o ch)).
 Print Assumptions C09_emitted_message_roundtrip.
-Check (C09_spec_ok_on_model_partial : forall c, k_max c < two32 ->
+Check (C09_spec_ok_on_model : forall c, spec_ok c (run_case c) = true).
+Print Assumptions C09_spec_ok_on_model.
+Check (C09_spec_ok_sound : forall c o,
+  k_max c < two32 -> forallb values_nonempty (k_ops c) = true ->
+  spec_ok c o = true -> SpecP (cfg_of impl_fixes c) (k_ops c) o []).
+Print Assumptions C09_spec_ok_sound.
+Check (C09_case_outputs_total_and_framed : forall c, k_max c < two32 ->
   ~ In OPanic (run_case c) /\ length (run_case c) = length (k_ops c) /\
   forall a ps p, In (OPayloads a ps) (run_case c) -> In p ps ->
     exists body, unframe (cfg_of impl_fixes c) p = Some body /\ p = frame (k_lp c) body).
-Print Assumptions C09_spec_ok_on_model_partial.
+Print Assumptions C09_case_outputs_total_and_framed.
+Check (C09_addr_meets_documented_table : forall rp rw a, parse_addr rp rw a = spec_addr rp rw a).
+Print Assumptions C09_addr_meets_documented_table.
+Check (C09_addr_accepted_sound : forall rp rw a t p, parse_addr rp rw a = AOk t p ->
+  match t with
+  | TUnix => a = pre_unix ++ p
+  | TUnixgram => a = pre_unixgram ++ p
+  | TUdp => (a = pre_udp ++ p /\ rp = true) \/ (a = p /\ rw = true /\ contains_sep a = false)
+  end).
+Print Assumptions C09_addr_accepted_sound.
+Check (C09_addr_unix_schemes_accepted : forall rp rw p,
+  parse_addr rp rw (pre_unix ++ p) = AOk TUnix p /\ parse_addr rp rw (pre_unixgram ++ p) = AOk TUnixgram p /\
+  parse_addr true rw (pre_udp ++ p) = AOk TUdp p).
+Print Assumptions C09_addr_unix_schemes_accepted.
+Check (C09_builder_meets_reference : forall ops b,
+  run_builder true b ops = spec_builder (b_t b) (b_path b) (b_max b) ops).
+Print Assumptions C09_builder_meets_reference.
+Check (C09_builder_accepts_within_limits : forall fixd ops b tid m lp d,
+  In (BConfig tid m lp d) (run_builder fixd b ops) ->
+  exists t, tid = transport_id t /\ m <= max_allowed t /\ m <= u32_max /\
+            (lp = true <-> t = TUnix) /\
+            m = match last_max ops (b_max b) with Some n => n | None => default_max_payload_len t end).
+Print Assumptions C09_builder_accepts_within_limits.
+Check (C09_telemetry_prefix_bypass : forall gp name,
+  doc_prefix gp name = effective_prefix gp name /\
+  (forall rest, effective_prefix gp (client_prefix ++ rest) = None) /\
+  (starts_with client_prefix name = false -> effective_prefix gp name = gp)).
+Print Assumptions C09_telemetry_prefix_bypass.
+Check (C09_flush_total : forall f ms, f_max f < two32 -> run_flush f ms <> None).
+Print Assumptions C09_flush_total.
+Check (C09_xspec_ok_on_model_partial : forall c,
+  (match c with XExec.XF _ _ => False | _ => True end) -> XExec.spec_ok c (XExec.run_case c) = true).
+Print Assumptions C09_xspec_ok_on_model_partial.
+Check (C09_display_refuted_before_fix : exists ops, XExec.spec_ok (XExec.XB ops) (XExec.OB (run_builder false bdefault ops)) = false).
+Print Assumptions C09_display_refuted_before_fix.
 Check (C09_framing_refuted_before_fix_drop : exists c ops, fx (c_env c) = {| fix_drop := false; fix_reject := true; fix_prefix := true |} /\
     spec_check c ops (run_cfg c ops) = false /\
     exists a p body, nth 3 (run_cfg c ops) OPanic = OPayloads a [p] /\ unframe c p = Some body /\
